@@ -208,5 +208,14 @@ func init() {
 		Rule: "each run = 2-3 clusters whose stubs map the same tokens to different users and answer the same impersonation SAR differently, drawn cache TTLs (0 / 2 s / default), 15-55 steps of: request to a drawn host (names in mixed case, aliases) with a drawn token and optional impersonation, time gaps around the TTLs (0.5 s - 11 min), changes of a cluster's own answers (token remapped/revoked, SAR flipped), a cluster made unreachable and back, delete and re-create; profile c12-alias also moves a server name from one live cluster to another; the oracle attributes every forwarded identity and every review to the cluster the host resolves to; distinct = distinct trace hash; non-trivial = at least two forwarded requests with two or more clusters",
 		Real: gwReal, Stub: gwStub, Assume: append([]string{"a cached answer may be as old as the longest configured TTL plus 50 ms", "the alias-move profile goes beyond the literal quantifier (hosts are fixed there) but not beyond the statement"}, gwAssume...),
 	})
+	reg(&Check{
+		ID:    "C11",
+		Title: "Hot reload converges to the latest object's config, whatever the history",
+		Batches: []Batch{
+			{World: "gw", Profile: "c11-history", Quick: 200, Thor: 10000, PerProc: 1},
+		},
+		Rule: "each run = 1-3 clusters, 6-40 steps of: a new object version mutating one hot-reloadable section (servers/disabled, policies incl. subsets, schema references and log modes, flow-control schemas incl. type/strategy/size, feature-gate annotation added/changed/gate removed/annotation removed/annotations nil, logging, serving certificate and client CA, server names from a colliding pool) through the real admission plugin, admission lister or controller informer held back and released (watch_delay: name conflicts reach the controller and are requeued), time advancing across the 5 s requeues, delete and re-create; at final quiescence a fresh twin gateway is built in the same bubble from the latest objects only and compared per cluster through public accessors and routing probes; distinct = distinct trace hash; non-trivial = at least 3 versions applied",
+		Real: gwReal, Stub: gwStub, Assume: append([]string{"client connection settings are excluded (fixed at creation, as the statement says)", "runs whose final objects claim one name twice are not compared (which cluster serves it is C10's business)"}, gwAssume...),
+	})
 	reg(&Check{ID: "SMOKE", Title: "debug", Batches: []Batch{{World: "gw", Profile: "smoke", Quick: 1, Thor: 1, PerProc: 1}}})
 }
